@@ -7,6 +7,8 @@ import json, os, re, sys, glob
 rnd, out = sys.argv[1], sys.argv[2]
 os.makedirs(out, exist_ok=True)
 props = [json.loads(l) for l in open('/verif/properties.jsonl')]
+PREF3 = "Prefer changes of these kinds: (i) an INTERACTION between two features that are each fine alone (e.g. memory paging x tape, snapshot loading x sound or video state, breakpoints x fast loading, joystick x keyboard, sound disabled x timing), (ii) legal but unusual sequences of PUBLIC HOST API calls (an API called twice in a row, in the middle of a frame after a breakpoint stop, before the first frame was emulated, after an error was returned, a setter called while the emulator is running), (iii) rarely used public functions or settings that the property's wording covers, (iv) arithmetic at extremes (0, 1, 0xFF, 0xFFFF, wrap-around, i8 extremes, the last line / last T-state / last sample of a frame, the largest legal sample rate or smallest legal buffer), (v) two code sites that each look fine alone (a helper refactored so that one caller's assumption breaks), (vi) state that survives where it should be reset, or is reset where it should survive, only on an unusual path."
+PREF4 = 'Prefer changes of these kinds: (i) histories of THREE OR MORE distinct steps (public host API calls and/or emulated-program actions) where each prefix behaves correctly and only the full sequence goes wrong, (ii) recovery paths: behaviour after an operation returned an error, after a file was rejected, after the end of a tape/log was reached, after a breakpoint stop - followed by normal use, (iii) DATA-dependent corners: particular byte patterns or lengths (a checksum byte of 0, a run of equal bytes, a length that is an exact multiple of an internal buffer or of a frame, two identical consecutive items, values with the top bit set, the same value written twice with something else in between), (iv) a change in a DIFFERENT subsystem than the one the property names (shared helper, shared state, initialisation order, Default impl, settings plumbing) whose side effect breaks this property, (v) asymmetric twins: two functions / match arms / machine models (48K vs 128K) / channels (left vs right, A/B/C) / directions (read vs write, save vs load, press vs release) that should mirror each other but no longer do in one rarely used case, (vi) saturating / wrapping / truncating conversions (usize<->u16, i8<->u8, f32<->f64, division rounding) that only matter for extreme but legal parameter values.'
 def title(path):
     try:
         for l in open(path):
@@ -26,6 +28,7 @@ for p in props:
     wt = f'/tmp/wt{rnd}-{pid}'
     od = f'/tmp/seed{rnd}-{pid}'
     quant = p.get('quantifier') or p.get('quantification') or ''
+    PREF = PREF4 if rnd == "4" else PREF3
     text = f"""You are helping to evaluate a verification effort for the open-source ZX Spectrum emulator "rustzx" (Rust workspace: rustzx-z80 CPU core, rustzx-core machine, aym AY chip, vtx player, rustzx-utils, rustzx-test integration tests). Your job is to play the role of a developer who introduces a REALISTIC, SUBTLE BUG that breaks ONE stated semantic property while everything still compiles and the existing test suite still passes.
 
 Work ONLY inside your own git worktree of the repository: {wt} (a detached checkout of the current code; it has its own build directory). You may read and edit anything inside it. You must NOT read, list or touch /verif, /repo, other /tmp/wt* directories or /tmp/seed* directories of other properties - your result has to be independent of any existing checking machinery. No network is available; always pass --offline to cargo. NEVER use `git stash` (the stash is shared between all worktrees of the repository and other agents are working in parallel): to switch between the unmodified and the modified tree use `git diff > /tmp/seed{rnd}-{pid}/work.patch; git checkout -- .; git apply /tmp/seed{rnd}-{pid}/work.patch`.
@@ -39,10 +42,10 @@ Statement: {p.get('statement')}
 Quantifier: {quant}
 ----------------------------------------------------------------
 
-IMPORTANT - this is a THIRD round. Earlier rounds already produced the following changes for this property; do NOT repeat them or close variants of them - choose different code sites and different mechanisms:
+IMPORTANT - this is round {rnd} (several earlier rounds were made). Earlier rounds already produced the following changes for this property; do NOT repeat them or close variants of them - choose different code sites and different mechanisms:
 {chr(10).join(earlier)}
 Also already tried for various properties (avoid): off-by-one of a single constant, swapping two table entries, dropping one mask bit in a port decode, removing a single bounds check, a one-entry cache of the last port / last written value, a lazily evaluated generator, a "same value written again" early return.
-Prefer changes of these kinds: (i) an INTERACTION between two features that are each fine alone (e.g. memory paging x tape, snapshot loading x sound or video state, breakpoints x fast loading, joystick x keyboard, sound disabled x timing), (ii) legal but unusual sequences of PUBLIC HOST API calls (an API called twice in a row, in the middle of a frame after a breakpoint stop, before the first frame was emulated, after an error was returned, a setter called while the emulator is running), (iii) rarely used public functions or settings that the property's wording covers, (iv) arithmetic at extremes (0, 1, 0xFF, 0xFFFF, wrap-around, i8 extremes, the last line / last T-state / last sample of a frame, the largest legal sample rate or smallest legal buffer), (v) two code sites that each look fine alone (a helper refactored so that one caller's assumption breaks), (vi) state that survives where it should be reset, or is reset where it should survive, only on an unusual path.
+{PREF}
 
 Produce TWO independent candidate changes (A and B), each a small source change to the rustzx crates (not to tests, not to Cargo files) such that:
  1. the workspace still compiles and `cargo test --workspace --no-fail-fast --offline` (run inside the worktree; first build takes a few minutes; 31 tests pass on the unmodified tree, some are #[ignore]d) still passes with the change applied - verify this yourself;
